@@ -79,6 +79,10 @@ extern "C" int pthread_mutex_unlock(pthread_mutex_t * m)
   return rc;
 }
 
+// libc functions with hidden process-wide state: every call is a scheduling point
+#define NR_HOOK(k) sch::point(60 + (k))
+#include "nonreentrant.hpp"
+
 // ---------------------------------------------------------------- harness bodies
 static bool DRAW_POINTS = false; // L3: every deviate request is a scheduling point (the user's deviate source is a seam)
 struct Rnd : bxdecay0::i_random {
@@ -98,6 +102,7 @@ static std::string HARNESS;
 static int NT = 2;
 static int KIND[sch::MAXT] = {0, 1, 0, 0};
 static int NCALLS = 1;
+static bool NEED_OK = false; // the sequential bodies must run without exception (else the harness would be vacuous)
 
 struct GenCfg {
   bool dbd;
@@ -293,6 +298,9 @@ int main(int argc, char ** argv)
   else if (HARNESS == "l3c") { NT = 2; DRAW_POINTS = true; GEN[0] = {false, "Co60", 0, 0}; GEN[1] = {false, "Bi207+Pb207m", 0, 0}; }
   else if (HARNESS == "l3d") { NT = 2; DRAW_POINTS = true; GEN[0] = {true, "Mo100", 0, 1}; GEN[1] = {true, "Nd150", 2, 1}; }
   else if (HARNESS == "l3e") { NT = 2; DRAW_POINTS = true; GEN[0] = {false, "Bi214+Po214", 0, 0}; GEN[1] = {false, "Tl208", 0, 0}; }
+  // two gA generators (synthetic datasets through BXDECAY0_DBD_GA_DATA_DIR): table loading from two threads
+  else if (HARNESS == "l2e") { NT = 2; GEN[0] = {true, "Mo100", 0, 21}; GEN[1] = {true, "Se82", 0, 22}; NEED_OK = true; }
+  else if (HARNESS == "l2f") { NT = 3; GEN[0] = {true, "Mo100", 0, 21}; GEN[1] = {true, "Cd116", 0, 23}; GEN[2] = {true, "Nd150", 0, 24}; NEED_OK = true; }
   else if (HARNESS == "l2d") { NT = 3; GEN[0] = {true, "Cd106", 0, 10}; GEN[1] = {true, "Ru96", 0, 10}; GEN[2] = {false, "Bi207+Pb207m", 0, 0}; }
   else return 2;
   LOG = sch::shared_log();
@@ -314,6 +322,10 @@ int main(int argc, char ** argv)
       return 3;
     }
     memcpy(SEQ[t], LOG->result[t], sizeof SEQ[t]);
+    if (NEED_OK && SEQ[t][7] != 0) {
+      fprintf(stdout, "HARNESS-ERROR sequential thread body %d throws (gA dataset missing?)\n", t);
+      return 3;
+    }
   }
   // replay discipline: the empty schedule twice, identical logs
   {
